@@ -37,6 +37,10 @@ fn main() {
                 let mut cfg = xplor::default_cfg(&mut rng, &scalars);
                 cfg.unreachable_blocks = rng.chance(1, 5);
                 cfg.allow_mem = rng.chance(3, 4);
+                // intrinsics and indirect branches are the observation points of the property: make them frequent
+                cfg.allow_intrinsic = rng.chance(2, 3);
+                cfg.intrinsic_pct = 15;
+                cfg.allow_branch = rng.chance(1, 3);
                 let function = fv::gen::function(&mut rng, &cfg, 0x1000);
                 let x = XProg {
                     function, scalars: scalars.clone(), big: rng.bool(), mem_base: 0x2000,
